@@ -534,7 +534,7 @@ def whole_contigs_in(outs, contigs, pred):
 
 
 # ---------------------------------------------------------------- C10 naming oracle
-def names_ok(outs, ba, prefix="SUPER_"):
+def names_ok(outs, ba, prefix="SUPER_", unloc_length_order=True, only_unloc_length_order=False):
     ok = True
     for key, asm in outs.items():
         names = [s.name for s in asm.scaffolds]
@@ -596,7 +596,8 @@ def names_ok(outs, ba, prefix="SUPER_"):
             if js != list(range(1, len(js) + 1)):
                 return False                               # _unloc_1..m without holes
             for a in range(1, len(js)):
-                ok = AND(ok, ent["unloc"][a].length >= ent["unloc"][a + 1].length)
+                if unloc_length_order:
+                    ok = AND(ok, ent["unloc"][a].length >= ent["unloc"][a + 1].length)
             if k[1] in ("", "A"):
                 totals[k[0]] = ISUM([ent["chr"].fragments_length] + [u.fragments_length for u in ent["unloc"].values()])
         for a in range(1, len(nums)):
